@@ -88,4 +88,80 @@ func TestVerifNetns(t *testing.T) {
 		}
 	}()
 	out.Line("nsa 1", impl.String())
+
+	// nsb: dumps the kernel itself produces for an address with a peer, an IPv4-mapped address and
+	// an IPv4-mapped loopback route
+	prop := os.Getenv("VERIF_PROP")
+	if prop == "C13" || prop == "C14" {
+		if !ip("-6", "addr", "add", "2001:db8:5::1", "peer", "2001:db8:6::2/64", "dev", "vf0", "nodad") {
+			out.Line("nsb 0", "skip")
+			return
+		}
+		time.Sleep(100 * time.Millisecond)
+		out.Line("nsb 1 peer", func() (s string) {
+			defer func() {
+				if recover() != nil {
+					s = "panic"
+				}
+			}()
+			addrs, err := a.AddressesByIndex(ifi.Index)
+			if err != nil {
+				return "err"
+			}
+			own, peer := false, false
+			for _, x := range addrs {
+				switch x.Address.Addr().String() {
+				case "2001:db8:5::1":
+					own = true
+				case "2001:db8:6::2":
+					peer = true
+				}
+			}
+			switch {
+			case own && peer:
+				return "both"
+			case own:
+				return "own"
+			case peer:
+				return "peer"
+			}
+			return "none"
+		}())
+		if !ip("-6", "addr", "add", "::ffff:192.0.2.9/128", "dev", "vf0", "nodad") {
+			out.Line("nsb 0", "skip")
+			return
+		}
+		time.Sleep(100 * time.Millisecond)
+		out.Line("nsb 1 mapaddr", func() (s string) {
+			defer func() {
+				if recover() != nil {
+					s = "panic"
+				}
+			}()
+			addrs, err := a.AddressesByIndex(ifi.Index)
+			if err != nil || len(addrs) < 4 {
+				return "err"
+			}
+			return "ok"
+		}())
+	}
+	if prop == "C15" {
+		if !ip("-6", "route", "add", "unreachable", "::ffff:0.0.0.0/96", "dev", "lo") {
+			out.Line("nsb 0", "skip")
+			return
+		}
+		time.Sleep(100 * time.Millisecond)
+		out.Line("nsb 1 maproute", func() (s string) {
+			defer func() {
+				if recover() != nil {
+					s = "panic"
+				}
+			}()
+			routes, err := a.LoopbackRoutes()
+			if err != nil || len(routes) < 2 {
+				return "err"
+			}
+			return "ok"
+		}())
+	}
 }
